@@ -170,9 +170,6 @@ Proof.
 Qed.
 
 (* ------------------------------------------------------------------ metadata *)
-Lemma sd_declare_step : forall v, MInv sd Any (set_step v).
-Proof. intro. minv. Qed.
-
 Lemma presR_init_vfs_handling : forall b, PresR (init_vfs_handling b).
 Proof.
   intro b. unfold init_vfs_handling. apply presR_catch.
@@ -183,6 +180,16 @@ Proof.
 Qed.
 
 Local Opaque init_vfs_handling.
+
+Lemma metadata_only_sets_md_only : forall h cl ck sz msgs s,
+  p_md_only (d_p (fst (handle_metadata_packet h cl ck sz None msgs s))) = true.
+Proof.
+  intros h cl ck sz msgs s. unfold handle_metadata_packet. mrun.
+  destruct (p_rcfg (d_p _)) as [rc|]; mrun; [|reflexivity].
+  match goal with |- context [negb (p_md_only (d_p ?S))] => change (p_md_only (d_p S)) with true end.
+  cbn [negb]. mrun.
+  destruct (match p_tid (d_p _) with Some x => x | None => (-1, -1) end) as [a b]. reflexivity.
+Qed.
 
 Lemma metadata_sets_complete_only_for_md_only : forall h cl ck sz names msgs s s' r,
   handle_metadata_packet h cl ck sz names msgs s = (s', r) -> d_state s' = ST_BUSY ->
@@ -206,11 +213,7 @@ Proof.
     specialize (HP s). rewrite H in HP. cbn [fst] in HP.
     destruct HP as [X|[_ X]]; [rewrite X in Hb; discriminate Hb | contradiction (Hd X)].
   - split; [reflexivity|].
-    unfold handle_metadata_packet in H. mrun_in H. cbn in H.
-    destruct (p_rcfg (d_p s)) as [rc|]; mrun_in H.
-    + cbn in H. mrun_in H. destruct (match p_tid (d_p s) with Some x => x | None => (-1, -1) end) as [a b].
-      unfold emit, modify in H. inversion H. reflexivity.
-    + inversion H. reflexivity.
+    pose proof (metadata_only_sets_md_only h cl ck sz msgs s) as X. rewrite H in X. exact X.
 Qed.
 
 (* ------------------------------------------------------------------ rejected writes *)
